@@ -42,7 +42,35 @@ pub fn set_clock(_ms: u64) {
     verif_hooks::set_now(_ms);
 }
 
+/// The largest whole number of seconds that can still be added to the CURRENT reading of the clock the
+/// polling scanner uses (mock or real): found by bisection through `checked_add`, so nothing is assumed
+/// about how that clock represents time.
+#[cfg(feature = "std")]
+fn edge_secs() -> u64 {
+    #[cfg(helgoboss_midi_verif)]
+    use helgoboss_midi::verif_hooks::Instant;
+    #[cfg(not(helgoboss_midi_verif))]
+    use std::time::Instant;
+    let now = Instant::now();
+    let (mut lo, mut hi) = (0u64, u64::MAX);
+    while lo < hi {
+        let mid = lo + (hi - lo - 1) / 2 + 1;
+        if now.checked_add(Duration::from_secs(mid)).is_some() {
+            lo = mid;
+        } else {
+            hi = mid - 1;
+        }
+    }
+    lo
+}
+
 pub fn duration_of(to: i64) -> Duration {
+    // -100 - k: k seconds less than the longest timeout whose deadline is representable right now: infinite
+    // for every purpose of the specification, but `now + timeout` stops being representable as time passes
+    #[cfg(feature = "std")]
+    if to <= -100 {
+        return Duration::from_secs(edge_secs().saturating_sub((-to - 100) as u64));
+    }
     if to == -1 {
         Duration::MAX
     } else if to < -1 {
